@@ -51,17 +51,21 @@ class SpecFn:
         st = State(dict(zip(self.params, formals)))
         outs = it.exec_block(fn.body, st)
         body = None
+        side = []
         for o in reversed(outs):
             if o.kind == "raise":
                 continue
             if o.kind != "return":
                 raise Unsupported(f"spec {self.name}: path without return")
             v = lift(o.val, self.ret)
-            pc = z3.And(*o.st.pc) if o.st.pc else z3.BoolVal(True)
+            branch = [f for f in o.st.pc if f.get_id() not in o.st.assumed]
+            facts = [f for f in o.st.pc if f.get_id() in o.st.assumed]
+            pc = z3.And(*branch) if branch else z3.BoolVal(True)
+            side.extend(z3.Implies(pc, f) for f in facts)
             body = v.t if body is None else z3.If(pc, v.t, body)
         if body is None:
             raise Unsupported(f"spec {self.name}: no returning path")
-        core.SPEC_DEFS[self.name] = core.SpecDef(F, [f.t for f in formals], body)
+        core.SPEC_DEFS[self.name] = core.SpecDef(F, [f.t for f in formals], body, side)
 
     def __call__(self, interp, st, *args):
         F = self.decl()
@@ -211,6 +215,9 @@ def symbolic_params(c, it: Interp, fixed: dict):
         if t.startswith("Fn:"):
             env[nme] = registry.make_callable(t[3:], nme)
             continue
+        if t.startswith("Rec:"):
+            env[nme] = _interp.make_record(t[4:], lambda path, fty, nme=nme: core.fresh(fty, f"{nme}.{path}"))
+            continue
         if t.startswith("Py") or t == "any":
             raise Unsupported(f"{c.qualname}: python-level parameter {nme} must be listed in enum_params")
         env[nme] = core.fresh(parse_ty(t), nme)
@@ -236,6 +243,10 @@ def verify_function(qualname: str, timeout_ms=20000, cross_check=False, only=Non
         covers = []
         for vi, fixed in enumerate(space):
             it = Interp(fi.module, contract=c, qualname=qualname)
+            it.index_function(fi.node)
+            missing = [k for k in c.loops if k >= it.n_loops] + [k for k in c.comps if k >= it.n_comps]
+            if missing:
+                raise Unsupported(f"sidecar names loop/comprehension ordinals {missing} that the source no longer has")
             env = symbolic_params(c, it, fixed)
             st = State(env)
             for g, gexpr in c.where.items():
@@ -258,6 +269,9 @@ def verify_function(qualname: str, timeout_ms=20000, cross_check=False, only=Non
                     est = State(dict(spec_env), o.st.pc, o.st.decisions)
                     est.env["result"] = o.val if o.kind == "return" else None
                     est.env["__final__"] = dict(o.st.env)
+                    for pk, pv in o.st.env.items():
+                        if isinstance(pv, ObjUnderConstruction) and pk in est.env:
+                            est.env[pk] = pv
                     for ename, e in c.ensures.items():
                         try:
                             g = it.ev_contract_expr(e, est)
